@@ -5,19 +5,40 @@ ROOT = os.path.dirname(os.path.dirname(os.path.abspath(__file__)))
 ALL = ["C%02d" % i for i in range(1, 21)]
 
 # property -> (design ref, level text, level note, technique)
+TECH = "contract-based deductive verification (sidecar contracts on the real functions, AST->SMT VC generation, z3/cvc5, native replay of counterexamples)"
+NOTE = ("Trusted: z3/cvc5; the pyvc VC generator (symex/values/arrays/contract); the library contracts for numpy/scipy/dask "
+        "(pyvc/stubs.py, rotation.py); machine floats as reals, fixed-width ints as integers; termination not proved. ")
 CLAIMED = {
     "C02": ("DESIGN.md section 2 / C02",
-            "Deductive: the crop-window / slice-and-pad / affine-matrix arithmetic of the real functions is executed "
-            "symbolically from /repo's source and every contract clause is discharged by z3/cvc5 for all integer and "
-            "real inputs; the interpolation itself is a trusted scipy contract.",
-            "Trusted: z3/cvc5, the pyvc VC generator, numpy/scipy/dask library contracts (stubs), reals for floats.",
-            "contract-based deductive verification (sidecar contracts, AST->SMT VC generation, z3/cvc5, native replay)"),
+            "Deductive, all inputs: make_slice_and_pad and prepare_affine are executed symbolically from /repo's source; "
+            "slice/pad arithmetic, out-of-bound raising (iff no overlap), block == tomogram window, the affine matrix "
+            "(sampling coordinate c + R(k-(s-1)/2)) and containment of every in-ball sample with its stencil in the block "
+            "(orders 0,1,3, all rotations) are discharged by z3; interpolation itself is a trusted scipy contract.",
+            NOTE + "Cauchy-Schwarz is used as proved instances; scipy.ndimage.affine_transform semantics assumed."),
+    "C05": ("DESIGN.md section 2 / C05",
+            "Deductive, all inputs: for every max_shifts >= 0 (not only the 1/20 grid) the backend alignment kernels "
+            "(_create_mesh, upsample, subpixel_zncc/ncc/pcc/fsc, crop_by_max_shifts, ncc_landscape chain) raise no "
+            "IndexError/shape error and return |shift_i| <= max_shifts_i; modular proofs over callee contracts.",
+            NOTE + "fsc_landscape and _upsampled_dft have trusted shape contracts (loops / complex exponentials)."),
+    "C06": ("DESIGN.md section 2 / C06",
+            "Deductive for the decode step: for all template counts T, rotation counts K and all (j,k), a best flat "
+            "candidate index k*T+j is reported as rotation quaternions[k] and label j by RotationImplemented.align "
+            "(nonlinear integer VCs); counterexamples are replayed on a real ZNCCAlignment with synthetic data.",
+            NOTE + "Candidate generation order and the argmax loop are not yet under contract (assumed: rotation-major, "
+            "template-minor; label of BaseAlignmentModel.align is a maximiser's flat index)."),
+    "C16": ("DESIGN.md section 2 / C16",
+            "Deductive, all shapes/cutoffs/orders 1..3: Butterworth weight at FFT index equals 1/(1+(|f|/cutoff)^(2*order)) "
+            "on the full and the half (rfftn) grid for both implementations, w[0,0,0]==1, identity branches, output shape "
+            "== input shape, the spectrum handed to the inverse transform is weight x spectrum(input), and the Backend / "
+            "pipeline entry points delegate with unchanged arguments.",
+            NOTE + "FFT linearity, irfftn(rfftn(x), s=x.shape)==x and the half/full spectrum correspondence are assumed lemmas."),
 }
 NOT_YET = "check not built yet in this session (work in progress; see DESIGN.md section 7 for the order)"
 
 def main():
     checks = []
-    for pid, (ref, text, note, tech) in sorted(CLAIMED.items()):
+    for pid, (ref, text, note) in sorted(CLAIMED.items()):
+        tech = TECH
         checks.append({
             "property_id": pid,
             "quick_cmd": f"./check {pid} --tier quick",
